@@ -169,6 +169,45 @@ def _bus_name(d, u, io_, data):
                         f'slot {slot}, which the name table calls {want!r}', None, data('desc-bus'))
 
 
+def fam_operators(ctx, names):
+    """every server operator unit and every output class is written so that the library's own description reader
+    accepts it and reports the units' channels"""
+    from . import c01
+    m = U()
+    c1 = ctx.real('c1', 1, 10)
+    k = ctx.choose('op', len(names))
+    kind, name = names[k]
+    rec = {'mode': 'nrt', 'names': ['c1'], 'sel': {'op': k}, 'opnames': [list(x) for x in names]}
+    data = _data('operators', rec)
+
+    def g():
+        n, iou = m['nse'], m['iou']
+        a, b_ = n.LFNoise0.ar(c1), n.LFNoise0.ar(c1 + 1)
+        if kind == 'unary':
+            iou.Out.ar(0, c01.UN_SRC[name](a))
+        elif kind == 'binary':
+            iou.Out.ar(0, c01.BIN_SRC[name](a, b_))
+        elif name == 'XOut':
+            iou.XOut.ar(0, 0.5, [a, b_])
+        elif name == 'LocalOut':
+            iou.LocalOut.ar([a, b_])
+            iou.Out.ar(0, iou.LocalIn.ar(2))
+        elif name == 'ReplaceOut':
+            iou.ReplaceOut.ar(0, [a, b_, a * 0.5])
+        else:
+            iou.OffsetOut.ar(0, [a])
+    try:
+        sd, b, order = build('op', g)
+    except (PathAbort, Inconclusive, Violation):
+        raise
+    except Exception as e:
+        raise Violation(f'valid graph with {kind} {name} does not compile: {type(e).__name__}: {e}', None, data('compile'))
+    d = structural(ctx, sd, b, order, data, 'op')
+    desc_agree(ctx, sd, b, d, data)
+    ctx.note('operators')
+    return {'fam': 'operators', 'op': name}
+
+
 def fam_iobus(ctx):
     """bus arguments given by controls of different rate groups (so that they live in different control units)"""
     m = U()
@@ -489,6 +528,8 @@ def job(j):
         h = lambda c: fam_controls(c, j['v'])      # noqa
     elif fam == 'iobus':
         h = fam_iobus
+    elif fam == 'operators':
+        h = lambda c: fam_operators(c, j['names'])     # noqa
     elif fam == 'invalid':
         h = lambda c: fam_invalid(c, j['kind'])    # noqa
     st = explore(h, max_paths=5000, timeout_ms=20000, stop_on_violation=True)
@@ -552,6 +593,8 @@ def replay(rec):
             fam_controls(ctx, rec['v'])
         elif fam == 'iobus':
             fam_iobus(ctx)
+        elif fam == 'operators':
+            fam_operators(ctx, [tuple(x) for x in rec['opnames']])
         elif fam == 'invalid':
             fam_invalid(ctx, rec['kind'])
     except Violation as v:
@@ -578,7 +621,7 @@ def main(tier, seed):
         wide = [v for v in wide if v['pv'] == v['two_bufs']]
     jobs += [dict(fam='wide', v=v) for v in wide]
     jobs += [dict(fam='multi', v=v) for v in bools('nested', 'pan', 'scale_in', 'zero')]
-    kmax = 40 if tier == 'quick' else 300
+    kmax = 40 if tier == 'quick' else 80
     step = 4 if tier == 'quick' else 10
     jobs += [dict(fam='many', kmin=a, kmax=min(kmax, a + step - 1)) for a in range(1, kmax + 1, step)]
     jobs += [dict(fam='name', lo=a, hi=min(257, a + 15)) for a in range(0, 258, 16)]
@@ -591,16 +634,21 @@ def main(tier, seed):
     kinds = ['rate', 'rate-mixed', 'nan', 'nan-arith', 'str', 'none', 'filter-rate', 'nan-unit']
     jobs += [dict(fam='invalid', kind=k) for k in kinds]
     jobs += [dict(fam='iobus')]
+    from . import c01 as _c01
+    opn = [('unary', n) for n in _c01.UN_SRC] + [('binary', n) for n in _c01.BIN_SRC] + \
+        [('out', n) for n in ('XOut', 'LocalOut', 'ReplaceOut', 'OffsetOut')]
+    for i in range(0, len(opn), 12):
+        jobs.append(dict(fam='operators', names=opn[i:i + 12]))
     for r in run_jobs('vf.props.c02', 'job', jobs, 'nrt'):
         chk.add('families', r)
-    chk.require_notes('families', ['wide', 'multi', 'many', 'name', 'name-rejected', 'controls', 'iobus'] +
+    chk.require_notes('families', ['wide', 'multi', 'many', 'name', 'name-rejected', 'controls', 'iobus', 'operators'] +
                       ['rejected:' + k for k in kinds])
     chk.programs = sum(a.get('paths', 0) for a in chk.parts.values())
     chk.bounds = {'families': ['width-first x optimiser rewrite (%d variants)' % len(wide), 'multi-output/nested '
                                'expansion (16 variants, In channels 1..4)', 'sum over k generators, k <= %d' %
-                               (40 if tier == 'quick' else 300), 'definition names of 0..257 characters',
+                               (40 if tier == 'quick' else 80), 'definition names of 0..257 characters',
                                'controls of sizes 1..3 x rates x gate', 'invalid graphs: ' + ', '.join(kinds)],
-                  'outside': 'non-ASCII names; more than 300 units; demand-rate graphs; arithmetic programs are '
+                  'outside': 'non-ASCII names; more than 80 units; demand-rate graphs; arithmetic programs are '
                              'validated structurally by C01 on every path'}
     chk.assumptions = ['creation order is observed by wrapping SynthDef._add_ugen from the harness',
                        'constants are exact reals; the readers see the f32 representatives of their classes']
